@@ -133,6 +133,22 @@ class SDict(object):
         return "SDict(%s)" % self.name
 
 
+class SymKey(object):
+    """A symbolic value used as a key of a native dictionary (hashed by identity; look-ups compare
+    the wrapped values with the interpreter's ==, see models.dict_find)."""
+    __slots__ = ("v",)
+
+    def __init__(self, v):
+        self.v = v
+
+    def __repr__(self):
+        return "SymKey(%r)" % (self.v,)
+
+
+def unkey(k):
+    return k.v if isinstance(k, SymKey) else k
+
+
 class Obj(object):
     """Heap object of live class `cls`."""
 
